@@ -107,6 +107,15 @@ func (c *Ctx) c14Roles(loopFn *ssa.Function) *c14roles {
 			ro.muFld = st.Field(i).Name()
 		}
 	}
+	// a close-and-mark helper (no lock of its own, unexported): the functions calling it notify as well
+	for f := range ro.notifiers {
+		if f.Object() != nil && f.Object().Exported() || len(lockOps(f)) > 0 {
+			continue
+		}
+		for _, cs := range c.librarySites(f) {
+			ro.notifiers[cs.Parent()] = true
+		}
+	}
 	return ro
 }
 
@@ -204,8 +213,37 @@ func runC14(c *Ctx) {
 			continue
 		}
 		mu := bp + "." + ro.muFld
-		if !mustHeldAt(f, cs, mu, true) {
-			r.Fail("R1", key, c.pos(cs), "the notify channel is closed without holding "+mu+": two closers can race and close it twice")
+		// where the lock is held and the once-test is made: here — or, when close-and-mark was extracted into an
+		// unexported helper that runs with the lock held, at each of the helper's call sites
+		type anchor struct {
+			fn *ssa.Function
+			at ssa.Instruction
+			mu string
+		}
+		anchors := []anchor{{f, cs, mu}}
+		if !mustHeldAt(f, cs, mu, true) && !(f.Object() != nil && f.Object().Exported()) {
+			if css := c.librarySites(f); len(css) > 0 && len(css) <= 6 {
+				anchors = nil
+				for _, site := range css {
+					abp := "?"
+					if args := site.Common().Args; len(args) > 0 {
+						if p, ok := flow.Path(args[0]); ok {
+							abp = p
+						}
+					}
+					anchors = append(anchors, anchor{site.Parent(), site, abp + "." + ro.muFld})
+				}
+			}
+		}
+		unlocked := false
+		for _, a := range anchors {
+			if !mustHeldAt(a.fn, a.at, a.mu, true) {
+				r.Fail("R1", key, c.pos(a.at), "the notify channel is closed without holding "+a.mu+": two closers can race and close it twice")
+				unlocked = true
+				break
+			}
+		}
+		if unlocked {
 			continue
 		}
 		// after the close, before any unlock / exit: store true to a bool field of conn
@@ -242,30 +280,36 @@ func runC14(c *Ctx) {
 		}
 		_, goneFld, _, _ := flow.FieldOf(flagStore.Addr)
 		// guard: dominated by !gone, or fresh channel
-		guarded := false
+		guarded := true
 		how := ""
-		for _, g := range flow.Guards(cs) {
-			cond, neg := flow.Cond(g.If.Cond, g.Taken)
-			if tn, fld, _, ok := flow.FieldOf(cond); ok && tn == ro.connT.Obj().Name() && fld == goneFld && neg {
-				guarded, how = true, "dominated by the !"+goneFld+" edge"
-			}
-			if bo, ok := cond.(*ssa.BinOp); ok {
-				if tn, fld, _, ok := flow.FieldOf(bo.X); ok && tn == ro.connT.Obj().Name() && fld == ro.notifyFld && flow.IsNilConst(bo.Y) && ((bo.Op == token.EQL) != neg) {
-					// channel was nil: fresh if a make is stored to the field between the guard and the close
-					fresh := false
-					flow.Instrs(f, func(in ssa.Instruction) {
-						if st, ok := in.(*ssa.Store); ok {
-							if _, sf, _, ok := flow.FieldOf(st.Addr); ok && sf == ro.notifyFld {
-								if _, isMk := st.Val.(*ssa.MakeChan); isMk && flow.Dominates(st, cs) {
-									fresh = true
+		for _, a := range anchors {
+			aGuarded := false
+			for _, g := range flow.Guards(a.at) {
+				cond, neg := flow.Cond(g.If.Cond, g.Taken)
+				if tn, fld, _, ok := flow.FieldOf(cond); ok && tn == ro.connT.Obj().Name() && fld == goneFld && neg {
+					aGuarded, how = true, "dominated by the !"+goneFld+" edge"
+				}
+				if bo, ok := cond.(*ssa.BinOp); ok {
+					if tn, fld, _, ok := flow.FieldOf(bo.X); ok && tn == ro.connT.Obj().Name() && fld == ro.notifyFld && flow.IsNilConst(bo.Y) && ((bo.Op == token.EQL) != neg) {
+						// channel was nil: fresh if a make is stored to the field between the guard and the close
+						fresh := false
+						flow.Instrs(a.fn, func(in ssa.Instruction) {
+							if st, ok := in.(*ssa.Store); ok {
+								if _, sf, _, ok := flow.FieldOf(st.Addr); ok && sf == ro.notifyFld {
+									if _, isMk := st.Val.(*ssa.MakeChan); isMk && flow.Dominates(st, a.at) {
+										fresh = true
+									}
 								}
 							}
+						})
+						if fresh {
+							aGuarded, how = true, "closes the channel freshly made under the "+ro.notifyFld+" == nil edge"
 						}
-					})
-					if fresh {
-						guarded, how = true, "closes the channel freshly made under the "+ro.notifyFld+" == nil edge"
 					}
 				}
+			}
+			if !aGuarded {
+				guarded = false
 			}
 		}
 		if !guarded {
@@ -577,10 +621,20 @@ func runC14(c *Ctx) {
 			// is the flag store must-executed on the exit path? (the function storing it is must-called)
 			good := false
 			why := "CloseNotify requested after the connection terminated returns a channel that is never closed: no terminated flag set by the loop's exit path is consulted"
+			var handCloses []ssa.Instruction
 			for _, cs := range ro.closeSites {
-				if cs.Parent() != hand {
+				if cs.Parent() == hand {
+					handCloses = append(handCloses, cs)
 					continue
 				}
+				// close-and-mark helper called from the hand-out function
+				for _, ci := range flow.CallInstrs(hand) {
+					if flow.StaticCallee(ci) == cs.Parent() {
+						handCloses = append(handCloses, ci)
+					}
+				}
+			}
+			for _, cs := range handCloses {
 				for _, g := range flow.Guards(cs) {
 					cond, neg := flow.Cond(g.If.Cond, g.Taken)
 					if tn, fld, _, ok := flow.FieldOf(cond); ok && tn == ro.connT.Obj().Name() && term[fld] && !neg {
